@@ -106,7 +106,7 @@ func scenario(prog string, o1, o2 outv, c conf, b sched.Bounds, cuts bool, tag s
 	return sched.Scenario{Name: name, Run: func(w *sched.W) {
 		classes := []string{}
 		if b.Pre > 0 {
-			classes = []string{"chan.read", "chan.Read"}
+			classes = []string{"chan.read", "chan.Read", "q."}
 		}
 		cfg := cm.Cfg(classes...)
 		cfg.NoPreAlt = b.Pre == 0
@@ -519,6 +519,11 @@ func scenarios(tier string) []sched.Scenario {
 				continue
 			}
 			out = append(out, scenario("A", outs[2], outs[0], c, sched.Bounds{Pre: 1, Env: 0}, false, "pre"))
+			if c.readSize == 7 && !c.keep && !c.promptSp {
+				// a delivery while the consumer is runnable plus a switch to the reader: the reader's enqueue lands
+				// inside the consumer's dequeue (queue hooks on)
+				out = append(out, scenario("A", outs[0], outs[2], c, sched.Bounds{Pre: 1, Env: 1, Total: 2}, false, "pre"))
+			}
 		}
 	}
 	// (5) two concurrent sessions
